@@ -321,22 +321,14 @@ class Sim:
         st = M['sectypes']
         for name in ('_SecFld', '_SecInt', '_SecFxp', '_SecFlt'):
             getattr(st, name).cache_clear()
-        sg = M['secgroups']
-        for name in dir(sg):
-            f = getattr(sg, name)
-            if hasattr(f, 'cache_clear') and callable(f):
-                try:
+        # only caches of functions DEFINED in these modules (they depend on the party configuration);
+        # never imported ones such as gfpx.GFpX, whose classes must stay unique per process
+        for mod in (M['secgroups'], M['secpols']):
+            for name in dir(mod):
+                f = getattr(mod, name)
+                w = getattr(f, '__wrapped__', None)
+                if hasattr(f, 'cache_clear') and w is not None and getattr(w, '__module__', None) == mod.__name__:
                     f.cache_clear()
-                except Exception:
-                    pass
-        sp = M['secpols']
-        for name in dir(sp):
-            f = getattr(sp, name)
-            if hasattr(f, 'cache_clear') and callable(f):
-                try:
-                    f.cache_clear()
-                except Exception:
-                    pass
         M['runtime'].Runtime.prfs.cache_clear()
 
     def close(self):
